@@ -148,8 +148,15 @@ def _optimize_contractions(relevant_obj_names: tuple[str],
     for group in connected_groups:
         contr_indices = tuple(relevant_obj_indices[pos] for pos in group)
         contr_names = tuple(relevant_obj_names[pos] for pos in group)
+        # indices that also occur on objects outside of the group can not be
+        # contracted yet
+        external = tuple(set(
+            idx for pos, indices in enumerate(relevant_obj_indices)
+            if pos not in group for idx in indices
+        ))
         contraction = Contraction(indices=contr_indices, names=contr_names,
-                                  term_target_indices=target_indices)
+                                  term_target_indices=target_indices,
+                                  external_indices=external)
         # if the contraction is not an outer contraction we have to check
         # the dimensionality of the intermediate tensor
         if max_itmd_dim is not None and \
